@@ -184,6 +184,52 @@ def check_case(run, case, tier='quick'):
         import shutil
         shutil.rmtree(os.path.join(repo.scratch(), 'Rules', 'nest_' + name), ignore_errors=True)
 
+def slow_reader_case(rng):
+    """A PRINCE list of some 200 kB (well above the 64 kB a pipe holds): the reader on the other end of the pipe is slower than PRINCE-LING."""
+    n = rng.choice([16000, 20000, 24000])
+    vals = ['%07d' % v for v in rng.sample(range(10 ** 7), n)]
+    # mostly one word per pre-terminal (distinct probabilities), a few hundred tied ones at the end
+    probs = sorted(((2.0 * (n - i)) / (n * (n + 1)) for i in range(n)), reverse=True)
+    terms = {'D7': [[v, p_] for v, p_ in zip(vals, probs)], 'A2': [['ab', 0.6], ['cd', 0.4]], 'C2': [['LL', 1.0]]}
+    spec = {'encoding': 'utf-8', 'uuid': 'slowrd-%08x' % rng.getrandbits(32), 'base': [['D7', 0.9], ['A2', 0.1]], 'prince': [['D7', 0.9], ['A2', 0.1]], 'terms': terms, 'omen': None}
+    return {'kind': 'synthetic', 'spec': spec, 'slow_reader': True, 'size': rng.choice([None, n - 1234]), 'hseed': rng.getrandbits(32)}
+
+def check_slow_reader(run, case):
+    """prince_ling.py writing to a pipe that is not read until it is full (the cracker is busy), then drained: the list that arrives is the list written to
+    -o FILE, all of it (with --size N: N words)."""
+    from .. import cli
+    name, path = gstream.materialise(case['spec'], 'c17s')
+    ofile = os.path.join(path, 'prince_ref.txt')
+    try:
+        sz = [] if case['size'] is None else ['-s', str(case['size'])]
+        cli.run_cli('prince_ling.py', ['-r', name, '-o', ofile] + sz, stdin_mode='devnull', max_out=8 << 20)
+        if not os.path.exists(ofile):
+            run.inconc('no reference file'); return
+        ref = open(ofile, 'rb').read()
+        if len(ref) < 100000:
+            run.inconc('reference list too small to fill a pipe'); return
+        out, err, rc, to, info = cli.run_cli_blocked('prince_ling.py', ['-r', name] + sz, [], settle=0.5)
+        run.ev('cli_runs'); run.ev('slow_reader_runs')
+        if to:
+            run.inconc('cli watchdog'); return
+        if info['blocked']:
+            run.ev('writers_held_by_a_full_pipe')
+        if out != ref:
+            run.violation(f'prince_ling.py {sz} into a pipe whose reader is slow (the pipe was full for a while): {out.count(10)} words arrived, -o FILE holds {ref.count(10)}', case,
+                          observed={'stderr_tail': err[-200:].decode('utf-8', 'replace'), 'bytes': len(out)}, expected={'bytes': len(ref)}); return
+        # ... and a reader that never stops but takes the list in sips of 512 bytes, the tool writing through its ordinary block buffer
+        out, err, rc, to = cli.run_cli_slow_reader('prince_ling.py', ['-r', name] + sz)
+        run.ev('cli_runs'); run.ev('slow_reader_runs')
+        if to:
+            run.inconc('cli watchdog'); return
+        if out != ref:
+            run.violation(f'prince_ling.py {sz} into a pipe read in sips of 512 bytes (a slow consumer): {out.count(10)} words arrived, -o FILE holds {ref.count(10)}', case,
+                          observed={'stderr_tail': err[-200:].decode('utf-8', 'replace'), 'bytes': len(out)}, expected={'bytes': len(ref)}); return
+        run.ev('slow_reader_lists_complete')
+        run.case(h(['slow-reader', case['spec']['uuid']]))
+    finally:
+        repo.drop_rules(name)
+
 def run(run, rng):
     run.required_events = ['POP', 'WORD', 'size_runs', 'rulesets_with_every_N', 'cli_file_equals_stdout', 'cli_runs_into_an_existing_file']
     run.min_distinct = 10
@@ -194,8 +240,13 @@ def run(run, rng):
         for enc_ in (None, None, 'utf-8-sig'):
             run.ev('legacy_code_page_cases')
             run.guard(legacy_prince_case(rng, enc_), check_case, run.tier, seconds=300)
+    if run.shard[0] == 1 % run.shard[1]:
+        run.guard(slow_reader_case(rng), check_slow_reader, seconds=300)
     for i in range(N[run.tier]):
         run.guard(gen_case(rng), check_case, run.tier, seconds=300)
 
 def replay(run, case):
-    check_case(run, case['case'], 'thorough')
+    if case['case'].get('slow_reader'):
+        check_slow_reader(run, case['case'])
+    else:
+        check_case(run, case['case'], 'thorough')
